@@ -18,7 +18,7 @@ Definition dec_point (n : N) : option point :=
 Definition dec_cause (n : N) : option cause :=
   match n with
   | 0 => Some CtxCancel | 1 => Some CtxDeadline | 2 => Some LocalClose | 3 => Some LocalDisconnect
-  | 4 => Some PeerClose | 5 => Some Malformed | _ => None
+  | 4 => Some PeerClose | 5 => Some Malformed | 6 => Some ReadFails | _ => None
   end.
 
 (* 0 stuck, 1 nil, 2 the context's error, 3 ErrClosedTransport, 4 the transport's write error, 5 other, 6 panic *)
